@@ -51,7 +51,9 @@ Record clp_params := mkCP {
   cp_registry : list (Z * Z);      (* token registry: (denom id, permission bits) in registry order *)
   cp_whitelist : list Z;           (* clp address whitelist (decommission) *)
   cp_rewards_lock : Z;             (* RewardsLockPeriod *)
-  cp_rewards_wallet : bool         (* RewardsDistribute: pay bucket rewards to wallets (else re-invest) *)
+  cp_rewards_wallet : bool;        (* RewardsDistribute: pay bucket rewards to wallets (else re-invest) *)
+  cp_margin : list Z;              (* x/margin Params.Pools: denom ids of the pools enabled for margin trading *)
+  cp_rq_threshold : Z              (* x/margin Params.RemovalQueueThreshold (Dec) *)
 }.
 Definition PERM_CLP : Z := 1.
 Definition PERM_IBCEXPORT : Z := 2.
